@@ -771,8 +771,10 @@ func (db *DB) newTransaction(update, isManaged bool) *Txn {
 	txn := &Txn{
 		update: update,
 		db:     db,
-		count:  1,                       // One extra entry for BitFin.
-		size:   int64(len(txnKey) + 10), // Some buffer for the extra entry.
+		count:  1, // One extra entry for BitFin.
+		// The BitFin entry has txnKey plus the 8 byte version as its key, the commit timestamp
+		// in decimal (up to 20 digits) as its value, and two meta bytes.
+		size: int64(len(txnKey) + 8 + 20 + 2),
 	}
 	if update {
 		if db.opt.DetectConflicts {
